@@ -87,7 +87,21 @@ def nt_files(suite, case, impl):
     return any(l.startswith("impl ok") or l.startswith("impl found") for l in case["lines"])
 
 
+def nt_index(suite, case, impl):
+    return sum(1 for l in case["lines"] if l.startswith("impl res ") and l not in ("impl res err", "impl res -")) >= 2
+
+
 PROPS = {
+    "C15": {
+        "suites": [("index", 1500, 20000)], "props": ["C15"], "level": "proof",
+        "nontrivial": nt_index,
+        "technique": "Lean 4 theorems (indexer invariant by induction over ascending blocks, bitmap-as-ascending-list algebra, scan = filter on sorted lists) + differential correspondence of BlockIndexer/GenericBlockIndexProvider over generated key assignments",
+        "level_text": "written_files_exact: every index file written while feeding strictly ascending blocks from a boundary holds, per key, exactly the fed blocks of its range carrying that key; blocksInRange_spec/_mem/_ascending: the provider returns exactly the matching indexed blocks of [max(base,fsb), base+size), ascending; upper_bound_exclusive pins the bound the unfixed code got wrong. The file-source half of C15 is covered by the filesrc suite (sequential model) without a closed-form theorem yet.",
+        "level_note": LEVEL_NOTE_COMMON + "roaring64 bitmaps modelled as ascending lists (finite sets); protobuf encoding of index files not modelled (files are records); MockStore without overwrite.",
+        "rule": "cases = one BlockIndexer (index size = bundle x {1,2,3,10}, bundle in {1,2,5,10}, fsb 0-3, optional defined start block) fed 5-44 ascending blocks (skipped numbers, occasional jump over a whole index range, start on/off a boundary) with random subsets of 8 keys, then 1-3 providers (exact or prefix key filters, possibleIndexSizes lists incl. sizes below the bundle size) queried at every bundle base of the range (1 in 25 off boundary); distinct = sha1 of header+ops; non-trivial = at least two non-empty query answers",
+        "explanation": "model answers compared op by op; an independent monitor recomputes, from the add ops alone, which blocks each query must return",
+        "assumptions": ["roaring64 bitmap semantics = finite sets of uint64"],
+    },
     "C16": {
         "suites": [("dbin", 400, 4000), ("oneblock", 3000, 40000)], "props": ["C16"], "level": "proof",
         "nontrivial": nt_files,
